@@ -264,15 +264,21 @@ PROPS["C18"] = dict(
           "late accepts and streaming calls (transitions); events are applied at quiescent points, batched, or from inside "
           "Service::handle (arrivals while the server is busy - this is what creates contention); ALL orders for small "
           "configurations under two arrival patterns, seeded random beyond; every (call, waiting window) pair is one oracle "
-          "evaluation target; distinct = hash of (scripts, step list); distinct service orders are counted separately"),
+          "evaluation target; distinct = hash of (scripts, step list); distinct service orders are counted separately; plus, on "
+          "real sockets and runtimes: 1..2 flooders write bursts of 3..9 calls in one write, the service holds the first of them "
+          "inside handle() while 1..3 victims write their call (the blocking write has returned), then lets go"),
     oracle=("logical clock ticks on every event and every handle(); ready(call) = latest of (its bytes entered the transport, "
             "previous call of the connection served, connection accepted, stream in front of it ended); (a) in a window "
             "(ready, served) without accept/closure/stream transition no other connection is served twice; (b) in general at "
-            "most N*(T+1) other calls are served in the window; (c) at every quiescent point no ready call is unserved"),
+            "most N*(T+1) other calls are served in the window; (c) at every quiescent point no ready call is unserved; real sockets: "
+            "among the calls the service logs after the held call and before a victim's call, no connection appears twice"),
     assumptions=SRV_ASSUME + [WAKE_NOTE, "a transition is attributed to a window conservatively: from the tick its event is applied until the next quiescent point"],
     floor_quick=20_000, floor_thorough=1_000_000,
     steps=[
         dict(layer="native", monitor="c18", shards_quick=4, shards_thorough=16),
+        # the same question on real runtimes and real Unix sockets (tokio current-thread / multi-thread, smol):
+        # the order of events is forced with a gate inside the service, the verdict is read from the service log
+        dict(layer="native", package="rt", monitor="c18", tag="real", shards_quick=4, shards_thorough=8),
     ],
 )
 
